@@ -126,6 +126,19 @@ func clamp(v, lo, hi int) int {
 	return v
 }
 
+// listTags normalises a tag list that may mention a tag several times (legal input for
+// AddStream / ReadStream / OpenStream / AddTagsCtx / RemoveTags*).
+func listTags(in []int) []int {
+	if len(in) > 4 {
+		in = in[:4]
+	}
+	var out []int
+	for _, t := range in {
+		out = append(out, ((t%nTags)+nTags)%nTags)
+	}
+	return out
+}
+
 func normTags(in []int) []int {
 	var out []int
 	seen := map[int]bool{}
@@ -142,7 +155,7 @@ func normTags(in []int) []int {
 func normSpec(s StreamSpec, nPeers int, dial bool) StreamSpec {
 	s.Gate = clamp(s.Gate, 0, 2)
 	s.Peer = ((s.Peer % nPeers) + nPeers) % nPeers
-	s.Tags = normTags(s.Tags)
+	s.Tags = listTags(s.Tags)
 	s.Queue = clamp(s.Queue, 1, 5)
 	s.FailSendAt = clamp(s.FailSendAt, 0, 6)
 	s.FailRecvAt = clamp(s.FailRecvAt, 0, 6)
@@ -195,7 +208,7 @@ func norm(c Case) Case {
 		if o.Kind > opBroadcast {
 			o.N = 1
 		}
-		o.Tags = normTags(o.Tags)
+		o.Tags = listTags(o.Tags)
 		var ps []int
 		seen := map[int]bool{}
 		for _, p := range o.Peers {
@@ -325,6 +338,7 @@ type mStream struct {
 	healthy  bool // gate healthy and no scripted failure
 	tags     map[int]bool
 	mayTags  map[int]bool // tags a racing AddTags may have given an ending stream
+	mult     map[int]int  // tag -> times it was mentioned at registration (while still held from then)
 	added    bool
 	dying    bool // an end event has been triggered since the last quiescence
 	dead     bool
@@ -452,8 +466,13 @@ func newHarness(c Case) *harness {
 func (h *harness) newModelStream(f *fakeStream, spec StreamSpec) *mStream {
 	s := &mStream{f: f, peer: spec.Peer, q: spec.Queue, tags: map[int]bool{}, mayTags: map[int]bool{}, added: true,
 		healthy: spec.Gate == gateHealthy && spec.FailSendAt == 0 && spec.FailRecvAt == 0}
+	s.mult = map[int]int{}
 	for _, t := range spec.Tags {
 		s.tags[t] = true
+		s.mult[t]++
+		if s.mult[t] == 2 {
+			h.class("tag-mentioned-twice-at-registration")
+		}
 	}
 	h.byKey[f.key] = s
 	h.order = append(h.order, s)
@@ -613,7 +632,11 @@ func (h *harness) exec(o Op) {
 				hit = hit || s.tags[t] || (s.dying && s.mayTags[t])
 			}
 			if hit {
-				h.address(s, id, false)
+				if h.address(s, id, false) >= 0 {
+					for k := h.extraCopies(s, o.Tags); k > 0; k-- {
+						h.addEntry(s, id, false, false)
+					}
+				}
 			}
 		}
 		if err := h.pool.Broadcast(h.ctx, &Msg{Id: id}, tagNames(o.Tags)...); err != nil {
@@ -752,8 +775,23 @@ func (h *harness) applyTags(s *mStream, o Op) {
 			s.tags[t] = true
 		} else {
 			delete(s.tags, t)
+			if s.mult[t] > 1 {
+				h.class("duplicate-tag-removed")
+			}
+			delete(s.mult, t)
 		}
 	}
+}
+
+// extraCopies: the statement does not say what a tag mentioned k times at registration means.
+// The pool keeps k index entries for it, so Streams(tag) lists the stream up to k times and a
+// Broadcast to that single tag may reach it up to k times; the model tolerates 1..k (further
+// copies are "may") and insists only that all of them go away with the tag / the stream.
+func (h *harness) extraCopies(s *mStream, tags []int) int {
+	if len(tags) != 1 || s.mult[tags[0]] < 2 {
+		return 0
+	}
+	return s.mult[tags[0]] - 1
 }
 
 // noteCmd: the stream consumed one more scripted incoming message; its next MsgRecv may be
@@ -950,6 +988,11 @@ func (h *harness) integrateDials() {
 				}
 				if hit {
 					h.addEntry(s, id, false, mi.kind == opSend)
+					if mi.kind == opBroadcast {
+						for k := h.extraCopies(s, keys(mi.tags)); k > 0; k-- {
+							h.addEntry(s, id, false, false)
+						}
+					}
 				}
 			}
 		}
@@ -1230,6 +1273,8 @@ func (h *harness) checkIndex() {
 			}
 			switch {
 			case n == want:
+			case want == 1 && n > 1 && n <= s.mult[t]:
+				// one index entry per mention at registration (see extraCopies)
 			case s.dead:
 				h.violate("Streams(%s) still returns stream %s after it ended", tagName(t), s.f.key)
 			case want == 0:
@@ -1383,7 +1428,7 @@ func runInBubble(c Case) (out vstat.Outcome, err error) {
 var outerT *testing.T
 var curTest string
 
-func writeCurrent(c Case) {
+func writeCurrent(c any) {
 	dir := os.Getenv("VERIF_REPLAY_OUT")
 	if dir == "" {
 		return
@@ -1420,6 +1465,12 @@ func run(c Case) (vstat.Outcome, error) {
 	c = norm(c)
 	writeCurrent(c)
 	defer clearCurrent()
+	return watched(func() (vstat.Outcome, error) { return runInBubble(c) })
+}
+
+// watched runs body inside a synctest bubble on its own goroutine and turns "no controller
+// heartbeat for hangTimeout" into a verdict.
+func watched(body func() (vstat.Outcome, error)) (vstat.Outcome, error) {
 	res := make(chan runResult, 1)
 	go func() {
 		var r runResult
@@ -1431,7 +1482,7 @@ func run(c Case) (vstat.Outcome, error) {
 			res <- r
 		}()
 		synctest.Test(outerT, func(*testing.T) {
-			r.out, r.err = runInBubble(c)
+			r.out, r.err = body()
 		})
 	}()
 	tick := time.NewTicker(50 * time.Millisecond)
@@ -1477,11 +1528,20 @@ func poolStacks() string {
 // tags are skewed so that broadcasts usually hit several streams
 var genTag = rapid.SampledFrom([]int{0, 0, 0, 1, 1, 2, 3})
 
+// genTagList: mostly distinct tags, sometimes a tag mentioned twice
+func genTagList(rt *rapid.T, label string, min int) []int {
+	ts := normTags(rapid.SliceOfN(genTag, min, 3).Draw(rt, label))
+	if len(ts) > 0 && rapid.IntRange(0, 3).Draw(rt, label+"-dup") == 0 {
+		ts = append(ts, ts[rapid.IntRange(0, len(ts)-1).Draw(rt, label+"-dupIdx")])
+	}
+	return ts
+}
+
 func genSpec(rt *rapid.T, nPeers int, label string) StreamSpec {
 	s := StreamSpec{
 		Gate:  rapid.SampledFrom([]int{0, 0, 0, 1, 2, 2}).Draw(rt, label+"gate"),
 		Peer:  rapid.IntRange(0, nPeers-1).Draw(rt, label+"peer"),
-		Tags:  normTags(rapid.SliceOfN(genTag, 0, 3).Draw(rt, label+"tags")),
+		Tags:  genTagList(rt, label+"tags", 0),
 		Queue: rapid.SampledFrom([]int{1, 1, 2, 2, 3, 4, 5}).Draw(rt, label+"queue"),
 	}
 	switch rapid.IntRange(0, 9).Draw(rt, label+"fail") {
@@ -1525,7 +1585,7 @@ func genCase(rt *rapid.T) Case {
 			Pace: rapid.IntRange(0, 2).Draw(rt, "pace") > 0,
 		}
 		o.Peers = rapid.SliceOfN(rapid.IntRange(0, nPeers-1), 1, 3).Draw(rt, "peers")
-		o.Tags = rapid.SliceOfN(genTag, 1, 3).Draw(rt, "tags")
+		o.Tags = genTagList(rt, "tags", 1)
 		switch rapid.IntRange(0, 11).Draw(rt, "shape") {
 		case 0:
 			// a stream ends while its tags are being changed and a broadcast is on its way
@@ -1565,6 +1625,10 @@ func TestReplay(t *testing.T) {
 		outerT, curTest = t, "TestStress"
 		vstat.Replay(t, prop, "TestStress", runStress)
 	})
+	t.Run("TestDialWorkers", func(t *testing.T) {
+		outerT, curTest = t, "TestDialWorkers"
+		vstat.Replay(t, prop, "TestDialWorkers", runDial)
+	})
 	t.Run("TestReg", func(t *testing.T) { // cases saved by the hand-written regressions
 		var hdr struct {
 			Test string `json:"test"`
@@ -1576,6 +1640,10 @@ func TestReplay(t *testing.T) {
 			t.Skip("not a regression case")
 		}
 		outerT, curTest = t, hdr.Test
+		if hdr.Test == "TestRegDialBacklog" {
+			vstat.Replay(t, prop, hdr.Test, runDial)
+			return
+		}
 		vstat.Replay(t, prop, hdr.Test, run)
 	})
 }
